@@ -121,6 +121,8 @@ func (fan *HwMonFan) AttachFanRpmCurveData(curveData *map[int]float64) (err erro
 
 	fan.FanCurveData = curveData
 
+	// forget a previously measured start pwm, otherwise it is mistaken for a user override
+	fan.StartPwm = fan.Config.StartPwm
 	startPwm, maxPwm := ComputePwmBoundaries(fan)
 	fan.SetStartPwm(startPwm, false)
 	fan.SetMaxPwm(maxPwm, false)
